@@ -5,7 +5,9 @@
 (*   rate on two- and three-team games with every outcome and per-call     *)
 (*        option, the three predictions,                                   *)
 (*   model.rating(...), create_rating([mu, sigma]) restoring a player from *)
-(*        its stored values, copy.deepcopy, and comparisons.               *)
+(*        its stored values, copy.deepcopy, comparisons, the caller's      *)
+(*        assignments to a rating, and the owner's reconfiguration of a    *)
+(*        model (tau, limit_sigma, gamma, beta, kappa) between calls.      *)
 (* Explored exhaustively to depth 2 and by simulation beyond; every        *)
 (* behaviour is emitted as the sequence of its observations and replayed   *)
 (* on LIVE objects of the real library (the heap evolves in the code as in *)
@@ -51,6 +53,11 @@ MCObjectCalls(ms, h) ==
   \cup {[op |-> "cmp", cmpop |-> c, a |-> RefLeaf(1), b |-> RefLeaf(2)] : c \in {"lt", "ge", "eq"}}
   \cup {[op |-> "cmp", cmpop |-> c, a |-> RefLeaf(2), b |-> PInt("3")] : c \in {"lt", "eq", "ne"}}
   \cup {[op |-> "assign", ref |-> 2, mu |-> "31.0", sigma |-> h[2].sigma], [op |-> "assign", ref |-> 1, mu |-> h[1].mu, sigma |-> "2.5"]}
+  \* the owner reconfigures a model (whatever it has been used for): each value differs from the constructed one
+  \cup {[op |-> "setattr", m |-> 1, attr |-> "tau", value |-> "1.5"], [op |-> "setattr", m |-> 2, attr |-> "tau", value |-> "0.0"],
+        [op |-> "setattr", m |-> 1, attr |-> "limit", value |-> "T"], [op |-> "setattr", m |-> 2, attr |-> "gamma", value |-> "default"],
+        [op |-> "setattr", m |-> 1, attr |-> "gamma", value |-> "big"], [op |-> "setattr", m |-> 1, attr |-> "beta", value |-> "2.0"],
+        [op |-> "setattr", m |-> 2, attr |-> "kappa", value |-> "0.001"]}
 
 VARIABLE walk          \* index of the random walk (0 in exhaustive mode)
 
@@ -66,6 +73,7 @@ RandomStep ==
                                    [] d.op = "deepcopy" -> DeepCopy(d)
                                    [] d.op = "cmp"      -> Compare(d)
                                    [] d.op = "assign"   -> Assign(d)
+                                   [] d.op = "setattr"  -> Reconfigure(d)
 
 SInit == Init /\ hist = <<>> /\ walk \in (IF NWalks = 0 THEN {0} ELSE 1..NWalks)
 SNext == (IF NWalks = 0 THEN Next ELSE RandomStep) /\ hist' = Append(hist, DropX(last')) /\ UNCHANGED walk
